@@ -31,7 +31,7 @@ func c16Baseline() cfg {
 		"slow_node_removal_rate": 1, "fast_node_removal_rate": 2,
 		"soft_delete_grace_period": "1m", "hard_delete_grace_period": "10m",
 		"scale_up_cool_down_period": "2m",
-		"taint_effect": "", "max_node_age": "",
+		"taint_effect":              "", "max_node_age": "",
 		"aws": cfg{"lifecycle": "", "launch_template_id": "", "launch_template_version": ""},
 	}
 }
@@ -330,6 +330,83 @@ func c16Grid(t *testing.T, tier string, shard, shards int, c *h.Collector) {
 	if shard == 0 {
 		c16DocumentedKeys(c)
 		c16StartupGate(c)
+		c16PerGroupDecoding(c)
+	}
+}
+
+// c16PerGroupDecoding: every group of a multi-group file decodes to exactly what it decodes to in a
+// file of its own — whatever the groups listed before it set and whatever it omits itself (JSON and
+// YAML, every order of a fully populated group, a group with the required keys only, and a group
+// with a shorter override list).
+func c16PerGroupDecoding(c *h.Collector) {
+	full := c16Baseline()
+	full.set("name", "full")
+	for k, v := range map[string]any{"dry_mode": true, "scale_on_starve": true, "taint_effect": "NoExecute", "max_node_age": "12h"} {
+		full[k] = v
+	}
+	full["aws"] = cfg{"lifecycle": "spot", "launch_template_id": "lt-0a1b2c", "launch_template_version": "3", "resource_tagging": true,
+		"instance_type_overrides": []string{"m5.large", "m5.xlarge"}, "fleet_instance_ready_timeout": "2m"}
+	minimal := cfg{}
+	for k, v := range c16Baseline() {
+		switch k {
+		case "taint_effect", "max_node_age", "aws":
+		default:
+			minimal[k] = v
+		}
+	}
+	minimal["name"] = "minimal"
+	other := c16Baseline()
+	other.set("name", "other")
+	other["aws"] = cfg{"lifecycle": "on-demand", "launch_template_id": "", "launch_template_version": "", "instance_type_overrides": []string{"c5.large"}}
+	all := []cfg{full, minimal, other}
+	render := func(format string, gs []cfg) string {
+		if format == "json" {
+			var arr []any
+			for _, g := range gs {
+				arr = append(arr, g)
+			}
+			b, _ := json.Marshal(map[string]any{"node_groups": arr})
+			return string(b)
+		}
+		body := "node_groups:\n"
+		for _, g := range gs {
+			body += strings.TrimPrefix(renderYAMLBlock(g), "node_groups:\n")
+		}
+		return body
+	}
+	for _, format := range []string{"json", "yaml"} {
+		alone := map[string]controller.NodeGroupOptions{}
+		for _, g := range all {
+			o, err := decode(render(format, []cfg{g}))
+			if err != nil || len(o) != 1 {
+				c.Report(h.Found{Violation: h.Violation{Prop: "C16", Sig: "C16/decode-error", Msg: fmt.Sprintf("single-group %s file of %v does not decode: %v", format, g["name"], err)}, Scenario: "c16.per-group", Case: g})
+				return
+			}
+			alone[g["name"].(string)] = o[0]
+		}
+		for _, order := range perms(len(all)) {
+			for n := 2; n <= len(all); n++ {
+				var gs []cfg
+				var names []string
+				for _, i := range order[:n] {
+					gs = append(gs, all[i])
+					names = append(names, all[i]["name"].(string))
+				}
+				c.R.Evaluations++
+				c.Nontrivial(fmt.Sprint("per-group/", format, names))
+				o, err := decode(render(format, gs))
+				if err != nil || len(o) != n {
+					c.Report(h.Found{Violation: h.Violation{Prop: "C16", Sig: "C16/decode-error", Msg: fmt.Sprintf("%s file with groups %v does not decode to %d groups: %v", format, names, n, err)}, Scenario: "c16.per-group", Case: names})
+					continue
+				}
+				for i, name := range names {
+					if !reflect.DeepEqual(o[i], alone[name]) {
+						c.Report(h.Found{Violation: h.Violation{Prop: "C16", Sig: "C16/group-decodes-differently-next-to-others",
+							Msg: fmt.Sprintf("%s file with groups %v: group %s decodes to %+v, in a file of its own to %+v", format, names, name, o[i], alone[name])}, Scenario: "c16.per-group", Case: map[string]any{"format": format, "groups": names}})
+					}
+				}
+			}
+		}
 	}
 }
 
@@ -349,17 +426,17 @@ func c16StartupGate(c *h.Collector) {
 		return b
 	}
 	invalids := map[string]func(cfg){
-		"name-empty":    func(b cfg) { b.set("name", "") },
+		"name-empty":     func(b cfg) { b.set("name", "") },
 		"lower-eq-upper": func(b cfg) { b.set("taint_lower_capacity_threshold_percent", 70) },
-		"upper-ge-up":   func(b cfg) { b.set("taint_upper_capacity_threshold_percent", 100) },
-		"slow-gt-fast":  func(b cfg) { b.set("slow_node_removal_rate", 5) },
-		"slow-negative": func(b cfg) { b.set("slow_node_removal_rate", -1); b.set("fast_node_removal_rate", 0) },
-		"soft-ge-hard":  func(b cfg) { b.set("soft_delete_grace_period", "10m") },
-		"no-cooldown":   func(b cfg) { b.set("scale_up_cool_down_period", "") },
-		"min-ge-max":    func(b cfg) { b.set("min_nodes", 5) },
-		"bad-effect":    func(b cfg) { b.set("taint_effect", "Bogus") },
-		"bad-lifecycle": func(b cfg) { b.set("aws.lifecycle", "Spot") },
-		"bad-max-age":   func(b cfg) { b.set("max_node_age", "abc") },
+		"upper-ge-up":    func(b cfg) { b.set("taint_upper_capacity_threshold_percent", 100) },
+		"slow-gt-fast":   func(b cfg) { b.set("slow_node_removal_rate", 5) },
+		"slow-negative":  func(b cfg) { b.set("slow_node_removal_rate", -1); b.set("fast_node_removal_rate", 0) },
+		"soft-ge-hard":   func(b cfg) { b.set("soft_delete_grace_period", "10m") },
+		"no-cooldown":    func(b cfg) { b.set("scale_up_cool_down_period", "") },
+		"min-ge-max":     func(b cfg) { b.set("min_nodes", 5) },
+		"bad-effect":     func(b cfg) { b.set("taint_effect", "Bogus") },
+		"bad-lifecycle":  func(b cfg) { b.set("aws.lifecycle", "Spot") },
+		"bad-max-age":    func(b cfg) { b.set("max_node_age", "abc") },
 	}
 	var inames []string
 	for k := range invalids {
